@@ -87,6 +87,229 @@ theorem C11_rendezvous_needs_n {w n : Nat} (hw : w < n) :
       simp only [PoolSt.canFinish, Bool.and_eq_true, beq_iff_eq, decide_eq_true_eq] at hc
       omega
 
+
+/-! ## The executable prediction agrees with the theorems -/
+
+/-- no step is enabled -/
+def PoolSt.quiescent (n : Nat) (s : PoolSt) : Prop := s.canStart = false ∧ s.canFinish n = false
+
+theorem run_reach {w n : Nat} (fuel : Nat) {s : PoolSt} (h : PoolReach w n s) :
+    PoolReach w n (s.run n fuel) := by
+  induction fuel generalizing s with
+  | zero => simpa [PoolSt.run] using h
+  | succ fuel ih =>
+    unfold PoolSt.run
+    by_cases hs : s.canStart = true
+    · simp only [hs, if_true]; exact ih (.step h (.start hs))
+    · by_cases hf : s.canFinish n = true
+      · simp only [hs, hf, if_true]; exact ih (.step h (.finish hf))
+      · simp only [hs, hf]; exact h
+
+theorem run_quiescent {n : Nat} (fuel : Nat) {s : PoolSt} (hm : 2 * s.pending + s.inside ≤ fuel) :
+    (s.run n fuel).quiescent n := by
+  induction fuel generalizing s with
+  | zero =>
+    have hp : s.pending = 0 := by omega
+    have hi : s.inside = 0 := by omega
+    simp [PoolSt.run, PoolSt.quiescent, PoolSt.canStart, PoolSt.canFinish, hp, hi]
+  | succ fuel ih =>
+    unfold PoolSt.run
+    by_cases hs : s.canStart = true
+    · simp only [hs, if_true]
+      have := C11_steps_decrease (n := n) (.start hs)
+      exact ih (by omega)
+    · by_cases hf : s.canFinish n = true
+      · simp only [hs, hf, if_true]
+        have := C11_steps_decrease (n := n) (.finish hf)
+        exact ih (by omega)
+      · simp only [hs, hf]
+        exact ⟨by simpa using hs, by simpa using hf⟩
+
+/-- **C11 (the prediction the correspondence run compares with).** With at least as many idle
+workers as groups, the run to quiescence ends with all `n` systems having met and left. -/
+theorem C11_poolCompletes_of_le {w n : Nat} (hw : n ≤ w) : poolCompletes w n = true := by
+  have hr : PoolReach w n ((PoolSt.init w n).run n (2 * n + 1)) := run_reach _ .init
+  have hq : ((PoolSt.init w n).run n (2 * n + 1)).quiescent n :=
+    run_quiescent _ (by simp [PoolSt.init])
+  obtain ⟨_, h2, _⟩ := pool_inv hr
+  have hd : ¬ ((PoolSt.init w n).run n (2 * n + 1)).done < n := by
+    intro hlt
+    obtain ⟨s', hs'⟩ := C11_rendezvous_progress hw hr hlt
+    cases hs' with
+    | start hc => rw [hq.1] at hc; exact Bool.noConfusion hc
+    | finish hc => rw [hq.2] at hc; exact Bool.noConfusion hc
+  simp only [poolCompletes, beq_iff_eq]
+  omega
+
+/-- somebody has left only if all `n` were inside at once, i.e. there were `n` workers -/
+theorem pool_done_le {w n : Nat} {s : PoolSt} (h : PoolReach w n s) : 0 < s.done → n ≤ w := by
+  induction h with
+  | init => simp [PoolSt.init]
+  | @step s0 _ hr hs ih =>
+    obtain ⟨h1, h2, _⟩ := pool_inv hr
+    cases hs with
+    | start hc => simpa only [PoolSt.start] using ih
+    | finish hc =>
+      simp only [PoolSt.canFinish, Bool.and_eq_true, beq_iff_eq, decide_eq_true_eq] at hc
+      intro _
+      by_cases hd : 0 < s0.done
+      · exact ih hd
+      · omega
+
+/-- … and with fewer it ends in the deadlock: the prediction is exact -/
+theorem C11_poolCompletes_iff {w n : Nat} : poolCompletes w n = true ↔ n ≤ w := by
+  refine ⟨fun h => ?_, C11_poolCompletes_of_le⟩
+  have hr : PoolReach w n ((PoolSt.init w n).run n (2 * n + 1)) := run_reach _ .init
+  simp only [poolCompletes, beq_iff_eq] at h
+  by_cases hn : n = 0
+  · omega
+  · exact pool_done_le hr (by omega)
+
+/-- **C11 (a blocked outsider).** `busy` of the workers held by something else: the stage still
+meets as long as the *idle* workers suffice. -/
+theorem C11_busy_workers {w busy n : Nat} (h : n + busy ≤ w) : poolCompletesBusy w busy n = true :=
+  C11_poolCompletes_of_le (by omega)
+
+/-! ## Which pool — `add_pool`, `add_batch`, `build` (model of the slot sharing in `builder.rs`) -/
+
+theorem slot_some (dflt : Nat) (b : PB) (x : Nat) : ∃ y, b.slot dflt (some x) = some y := by
+  induction b generalizing x with
+  | nil => exact ⟨x, rfl⟩
+  | pool p r ih => exact ih p
+  | batch t ws inner r _ ih => exact ih _
+
+theorem slot_noPool {dflt : Nat} {b : PB} (h : b.noPool = true) {s : Option Nat}
+    (hs : s.getD dflt = dflt) : (b.slot dflt s).getD dflt = dflt := by
+  induction b generalizing s with
+  | nil => simpa [PB.slot] using hs
+  | pool p r ih => simp [PB.noPool] at h
+  | batch t ws inner r _ ih =>
+    simp only [PB.noPool, Bool.and_eq_true] at h
+    simp only [PB.slot]
+    exact ih h.2 (by simp [hs])
+
+theorem batches_noPool {dflt : Nat} {b : PB} (h : b.noPool = true) :
+    ∀ d ∈ b.batches dflt dflt, d.pool = dflt := by
+  induction b with
+  | nil => simp [PB.batches]
+  | pool p r ih => simp [PB.noPool] at h
+  | batch t ws inner r ih1 ih2 =>
+    simp only [PB.noPool, Bool.and_eq_true] at h
+    intro d hd
+    simp only [PB.batches, List.mem_cons, List.mem_append] at hd
+    rcases hd with rfl | hd | hd
+    · rfl
+    · rw [slot_noPool h.1 (by simp)] at hd
+      exact ih1 h.1 d hd
+    · exact ih2 h.2 d hd
+
+/-- **C11 (default pool).** Without any `add_pool`, every dispatcher that `build` produces — the
+top-level one, every batch, every nested batch — dispatches on a pool of rayon's default size,
+whatever the widths of the stages of the dispatcher that happened to create the pool. -/
+theorem C11_default_pool_size {dflt : Nat} {b : PB} (h : b.noPool = true) (ws : List Nat) :
+    ∀ d ∈ b.build dflt ws, d.pool = dflt := by
+  intro d hd
+  have hf : (b.slot dflt none).getD dflt = dflt := slot_noPool h (by simp)
+  simp only [PB.build, List.mem_cons] at hd
+  rcases hd with rfl | hd
+  · exact hf
+  · rw [hf] at hd
+    exact batches_noPool h d hd
+
+/-- **C11 (default pool, all dispatchers sharing it).** … hence every stage of every one of
+them, of width up to the default size, can rendezvous: the pool is not sized after the widest
+stage of whichever dispatcher is built first. -/
+theorem C11_default_pool_rendezvous {dflt : Nat} {b : PB} (h : b.noPool = true) (ws : List Nat)
+    {d : Disp} (hd : d ∈ b.build dflt ws) {n : Nat} (_hn : n ∈ d.widths) (hle : n ≤ dflt) :
+    poolCompletes d.pool n = true := by
+  rw [C11_default_pool_size h ws d hd]
+  exact C11_poolCompletes_of_le hle
+
+example : (PB.batch 1 [1] .nil (.batch 2 [4] .nil .nil)).noPool = true ∧
+    (PB.batch 1 [1] .nil (.batch 2 [4] .nil .nil)).build 8 [4, 1] =
+      [⟨none, 8, [4, 1]⟩, ⟨some 1, 8, [1]⟩, ⟨some 2, 8, [4]⟩] := by decide
+
+theorem slot_lastPool {dflt : Nat} {b : PB} {p : Nat} (h : b.lastPool = some p) (s : Option Nat) :
+    b.slot dflt s = some p := by
+  induction b generalizing s with
+  | nil => simp [PB.lastPool] at h
+  | pool q r ih =>
+    simp only [PB.lastPool] at h
+    simp only [PB.slot]
+    cases hr : r.lastPool with
+    | some q' => rw [hr] at h; exact ih (by rw [hr]; exact h) _
+    | none =>
+      rw [hr] at h
+      injection h with h
+      subst h
+      -- no later `add_pool`: the slot keeps `q`
+      clear ih
+      have : ∀ (r : PB) (x : Nat), r.lastPool = none → r.slot dflt (some x) = some x := by
+        intro r
+        induction r with
+        | nil => intro x _; rfl
+        | pool q2 r2 _ =>
+          intro x h2
+          simp only [PB.lastPool] at h2
+          cases h3 : r2.lastPool <;> simp [h3] at h2
+        | batch t ws inner r2 _ ih2 =>
+          intro x h2
+          simp only [PB.slot, Option.getD_some]
+          exact ih2 x h2
+      exact this r q hr
+  | batch t ws inner r _ ih =>
+    simp only [PB.lastPool] at h
+    simp only [PB.slot]
+    exact ih h _
+
+theorem direct_mem_batches {dflt f : Nat} {b : PB} {t : Nat} {ws : List Nat}
+    (h : (t, ws) ∈ b.direct) : ⟨some t, f, ws⟩ ∈ b.batches dflt f := by
+  induction b with
+  | nil => simp [PB.direct] at h
+  | pool p r ih => exact ih h
+  | batch t' ws' inner r _ ih =>
+    simp only [PB.direct, List.mem_cons] at h
+    simp only [PB.batches, List.mem_cons, List.mem_append]
+    rcases h with h | h
+    · left
+      injection h with h1 h2
+      subst h1; subst h2; rfl
+    · right; right; exact ih h
+
+/-- **C11 (user-supplied pool).** Once `add_pool` / `with_pool` was called on the builder —
+before or after the batches were added — the top-level dispatcher and every batch registered on
+that builder dispatch on the pool supplied last; what the batch's own builder was given is
+irrelevant for the batch's own stages. -/
+theorem C11_user_pool {dflt p : Nat} {b : PB} (h : b.lastPool = some p) (ws : List Nat) :
+    (b.build dflt ws).head? = some ⟨none, p, ws⟩ ∧
+    ∀ t wt, (t, wt) ∈ b.direct → ⟨some t, p, wt⟩ ∈ b.build dflt ws := by
+  have hf : (b.slot dflt none).getD dflt = p := by rw [slot_lastPool h]; rfl
+  refine ⟨by simp [PB.build, hf], fun t wt ht => ?_⟩
+  simp only [PB.build, hf, List.mem_cons]
+  right
+  exact direct_mem_batches ht
+
+/-- … so its stages of width up to the supplied pool's size rendezvous -/
+theorem C11_user_pool_rendezvous {dflt p : Nat} {b : PB} (h : b.lastPool = some p) (ws : List Nat)
+    {t : Nat} {wt : List Nat} (ht : (t, wt) ∈ b.direct) {n : Nat} (_hn : n ∈ wt) (hle : n ≤ p) :
+    ∃ d ∈ b.build dflt ws, d.tag = some t ∧ d.widths = wt ∧ poolCompletes d.pool n = true :=
+  ⟨_, (C11_user_pool h ws).2 t wt ht, rfl, rfl, C11_poolCompletes_of_le hle⟩
+
+example : (PB.batch 1 [3] (.pool 1 .nil) (.pool 4 .nil)).lastPool = some 4 ∧
+    (PB.batch 1 [3] (.pool 1 .nil) (.pool 4 .nil)).build 16 [4] = [⟨none, 4, [4]⟩, ⟨some 1, 4, [3]⟩] := by
+  decide
+
+/-- **What the code does for a batch inside a batch (depth ≥ 2)** — recorded because it limits
+the clause "for a user-supplied pool … inside batches": the inner-most dispatcher was built on
+the slot of the middle builder *before* `add_batch` pointed that builder at the top-level slot,
+so it runs on a default pool (here 2 threads) although the user supplied 8: its stage of four
+groups cannot rendezvous, while the same plan directly under the top level can. -/
+theorem C11_nested_batch_pool_witness :
+    (PB.pool 8 (.batch 1 [1] (.batch 2 [4] .nil .nil) .nil)).build 2 [1] =
+      [⟨none, 8, [1]⟩, ⟨some 1, 8, [1]⟩, ⟨some 2, 2, [4]⟩] ∧
+    (⟨some 2, 2, [4]⟩ : Disp).completes = false ∧
+    ((PB.pool 8 (.batch 2 [4] .nil .nil)).build 2 [1]).all Disp.completes = true := by decide
+
 /-- the executable prediction used by the correspondence run, on a few sizes (these are tests) -/
 example : poolCompletes 16 16 = true ∧ poolCompletes 19 16 = true ∧ poolCompletes 3 4 = false ∧
     poolCompletes 2 2 = true := by decide
@@ -100,3 +323,19 @@ end Shred
 #print axioms Shred.C11_finish_needs_all
 #print axioms Shred.reach_starts
 #print axioms Shred.C11_rendezvous_needs_n
+#print axioms Shred.run_reach
+#print axioms Shred.run_quiescent
+#print axioms Shred.C11_poolCompletes_of_le
+#print axioms Shred.pool_done_le
+#print axioms Shred.C11_poolCompletes_iff
+#print axioms Shred.C11_busy_workers
+#print axioms Shred.slot_some
+#print axioms Shred.slot_noPool
+#print axioms Shred.batches_noPool
+#print axioms Shred.C11_default_pool_size
+#print axioms Shred.C11_default_pool_rendezvous
+#print axioms Shred.slot_lastPool
+#print axioms Shred.direct_mem_batches
+#print axioms Shred.C11_user_pool
+#print axioms Shred.C11_user_pool_rendezvous
+#print axioms Shred.C11_nested_batch_pool_witness
